@@ -403,7 +403,35 @@ func init() {
 		}
 		return nil, callDone
 	}
-	intrinsics["time.Sleep"] = intrinsics["runtime.Gosched"]
+	// time.Sleep returns when nothing else can run: a sleep is long compared with the computation of
+	// the other goroutines (polling loops would otherwise spin for ever under an unfair schedule)
+	intrinsics["time.Sleep"] = func(c *callCtx, a []Value) (Value, callStatus) {
+		e, g := c.e, c.g
+		if len(e.gs) == 1 {
+			return nil, callDone
+		}
+		g.idleWaiter = true
+		quiet := func() bool {
+			for _, o := range e.gs {
+				if o == g || o.idleWaiter {
+					continue
+				}
+				if o.status == gRunnable {
+					return false
+				}
+				if o.status == gBlocked && o.ready != nil && o.ready() {
+					return false
+				}
+			}
+			return true
+		}
+		if quiet() {
+			g.idleWaiter = false
+			return nil, callDone
+		}
+		e.block(g, "time.Sleep", quiet, func() { g.idleWaiter = false; c.finish(nil) })
+		return nil, callBlocked
+	}
 	intrinsics["runtime.GC"] = func(c *callCtx, a []Value) (Value, callStatus) { return nil, callDone }
 	intrinsics["runtime/debug.FreeOSMemory"] = intrinsics["runtime.GC"]
 	intrinsics["runtime.KeepAlive"] = intrinsics["runtime.GC"]
